@@ -134,4 +134,26 @@ def SameBody : List HStmt → List HStmt → Prop
 def SameInit (g' g : GScript) : Prop :=
   SameBody g'.init g.init ∧ g'.bar = g.bar ∧ g'.fuel = g.fuel ∧ g'.tfuel = g.tfuel
 
+/-! ### the same strategy object, run again -/
+
+/-- a statement of `initialize()` on the next run: `self.triggers.append(self.t)` appends the object `self.t` — built once, when the strategy was
+    made — in the state the previous run left it in (`live`: the objects installed when that run ended; an object no longer installed is, as
+    in `handBack2`, taken in the state written in the script: exact for the stateless classes, exact up to `reset()` otherwise) -/
+def leftoverStmt (live : List Trig) : HStmt → HStmt
+  | .tadd t => .tadd ((live.find? (fun t' => t'.id == t.id)).getD t)
+  | s => s
+
+/-- the strategy object after `Actuator.run`: the same hooks; the trigger objects `initialize()` installs carry what the run left in them -/
+def strategyAfterRun2 (cfg : Cfg) (trigs : List Trig) (g : GScript) : GScript :=
+  { g with init := g.init.map (leftoverStmt (runG2 cfg trigs g).trigsLeft) }
+
+/-- the second `Actuator.run` (fresh Actuator / broker / markets, same data) of the same strategy object -/
+def rerun2 (cfg : Cfg) (trigs : List Trig) (g : GScript) : RunResult :=
+  runG2 cfg (trigsAfterRun2 cfg trigs g) (strategyAfterRun2 cfg trigs g)
+
+/-- the same second run in the older reading — every trigger of `strategy.triggers` reset when `run` is ENTERED, nothing after `initialize()`
+    (`actuatorRunG`): what distinguishes the two orders in the correspondence run -/
+def rerun2ResetBeforeInit (cfg : Cfg) (trigs : List Trig) (g : GScript) : RunResult :=
+  runG cfg ((trigsAfterRun2 cfg trigs g).map Trig.reset) (strategyAfterRun2 cfg trigs g)
+
 end Demeter.Core
